@@ -47,7 +47,7 @@ class Canon:
 
   def __init__(self, *, tags=True, history=False, dict_order=False,
                fill_defaults=False, tuple_identity=False, serials=False,
-               numbering=True, normalize_partials=False):
+               numbering=True, normalize_partials=False, unfold=False):
     self.tags = tags
     self.history = history
     self.dict_order = dict_order
@@ -56,12 +56,18 @@ class Canon:
     self.serials = serials
     self.numbering = numbering
     self.normalize_partials = normalize_partials
+    self.unfold = unfold     # never emit refs: compare as trees
+    if unfold:
+      self.numbering = False
     self.memo = {}
     self.pins = []
 
   def _visit(self, x):
     """Returns ('ref', n) if seen before, else None after numbering."""
     i = id(x)
+    if self.unfold:
+      self.memo[i] = -1
+      return None
     if i in self.memo:
       return ('ref', self.memo[i])
     self.memo[i] = len(self.memo)
